@@ -23,6 +23,7 @@ type c11Tag struct {
 	Def   string
 	Color string
 	Marks map[uint64]bool
+	Conv  map[string]bool
 }
 
 type c11Op struct {
@@ -31,6 +32,7 @@ type c11Op struct {
 	Arg   string   `json:"arg,omitempty"`
 	Color string   `json:"color,omitempty"`
 	IDs   []uint64 `json:"ids,omitempty"`
+	Conv  []string `json:"converters,omitempty"`
 }
 
 var c11RefRe = regexp.MustCompile(`(tag|service|mark|generated):([a-z]+)`)
@@ -112,6 +114,12 @@ func (m c11Model) reaches(def string, target string) bool {
 func (m c11Model) apply(op c11Op, nextStreamID uint64) (reject bool) {
 	switch op.Op {
 	case "restart":
+		// converters of a tag whose definition refers to other tags are not attached again at start
+		for _, t := range m {
+			if len(c11Refs(t.Def)) != 0 {
+				t.Conv = map[string]bool{}
+			}
+		}
 		return false
 	case "add":
 		typ, ok := c11ValidName(op.Name)
@@ -132,7 +140,7 @@ func (m c11Model) apply(op c11Op, nextStreamID uint64) (reject bool) {
 				return true
 			}
 		}
-		m[op.Name] = &c11Tag{Def: op.Arg, Color: op.Color, Marks: c11IDs(op.Arg)}
+		m[op.Name] = &c11Tag{Def: op.Arg, Color: op.Color, Marks: c11IDs(op.Arg), Conv: map[string]bool{}}
 	case "del":
 		if _, ok := m[op.Name]; !ok || m.referenced(op.Name) {
 			return true
@@ -183,6 +191,22 @@ func (m c11Model) apply(op c11Op, nextStreamID uint64) (reject bool) {
 		}
 		delete(m, op.Name)
 		m[op.Arg] = t
+	case "convset":
+		t, ok := m[op.Name]
+		if !ok {
+			return true
+		}
+		want := map[string]bool{}
+		for _, c := range op.Conv {
+			if c != "ca" && c != "cb" && c != "cc" {
+				return true // unknown converter
+			}
+			if !t.Conv[c] && len(c11Refs(t.Def)) != 0 {
+				return true // a converter cannot be attached to a tag whose definition refers to other tags
+			}
+			want[c] = true
+		}
+		t.Conv = want
 	case "markadd", "markdel":
 		if !(strings.HasPrefix(op.Name, "mark/") || strings.HasPrefix(op.Name, "generated/")) {
 			return true
@@ -223,6 +247,8 @@ func c11Call(mgr *Manager, op c11Op) (err error, hung bool) {
 			done <- mgr.UpdateTag(op.Name, UpdateTagOperationUpdateColor(op.Color))
 		case "rename":
 			done <- mgr.UpdateTag(op.Name, UpdateTagOperationUpdateName(op.Arg))
+		case "convset":
+			done <- mgr.UpdateTag(op.Name, UpdateTagOperationSetConverter(op.Conv))
 		case "markadd":
 			done <- mgr.UpdateTag(op.Name, UpdateTagOperationMarkAddStream(op.IDs))
 		case "markdel":
@@ -251,7 +277,9 @@ func c11List(mgr *Manager) ([]TagInfo, bool) {
 func c11Summary(l []TagInfo) string {
 	var parts []string
 	for _, t := range l {
-		parts = append(parts, fmt.Sprintf("%s=%q ref=%v color=%s", t.Name, t.Definition, t.Referenced, t.Color))
+		cs := append([]string(nil), t.Converters...)
+		sort.Strings(cs)
+		parts = append(parts, fmt.Sprintf("%s=%q ref=%v color=%s conv=%v", t.Name, t.Definition, t.Referenced, t.Color, cs))
 	}
 	return strings.Join(parts, "; ")
 }
@@ -270,7 +298,8 @@ func TestC11Standin(t *testing.T) {
 	names := []string{"tag/a", "tag/b", "tag/c", "service/s", "mark/m", "generated/g", "tag/", "foo", "tag/d"}
 	queries := []string{"id:1", "id:1,3", "tag:a", "tag:b", "tag:c", "tag:a tag:b", "service:s", "tag:b or service:s", "mark:m", "tag:zzz", "foo", "cport:80 tag:c", "-tag:a", "tag:d"}
 	colors := []string{"red", "blue"}
-	idLists := [][]uint64{{0}, {1}, {0, 2}, {3}, {7}, {1, 2, 3}}
+	idLists := [][]uint64{{0}, {1}, {0, 2}, {3}, {7}, {1, 2, 3}, {18446744073709551615}, {18446744073709551615, 1}, {2, 18446744073709551614}}
+	convLists := [][]string{{}, {"ca"}, {"cb"}, {"ca", "cb", "cc"}, {"cc", "ca"}, {"ca", "nonexistent"}, {"nonexistent"}}
 	var model c11Model
 	existing := func() []string {
 		var l []string
@@ -319,6 +348,9 @@ func TestC11Standin(t *testing.T) {
 		case 4, 5, 6:
 			return c11Op{Op: "query", Name: n, Arg: q}
 		case 7:
+			if rng.Intn(2) == 0 {
+				return c11Op{Op: "convset", Name: n, Conv: convLists[rng.Intn(len(convLists))]}
+			}
 			return c11Op{Op: "rename", Name: n, Arg: names[rng.Intn(len(names))]}
 		case 8:
 			if rng.Intn(2) == 0 {
@@ -359,6 +391,9 @@ func TestC11Standin(t *testing.T) {
 	}
 	for si := 0; si < nSeq; si++ {
 		d := makeTempdirs(t)
+		for _, c := range []string{"ca", "cb", "cc"} {
+			addConverter(d, c)
+		}
 		mgr := makeManager(t, d)
 		nextStreamID := uint64(0)
 		if si%2 == 0 {
@@ -384,6 +419,10 @@ func TestC11Standin(t *testing.T) {
 				c.Marks = map[uint64]bool{}
 				for id := range tg.Marks {
 					c.Marks[id] = true
+				}
+				c.Conv = map[string]bool{}
+				for cn := range tg.Conv {
+					c.Conv[cn] = true
 				}
 				trial[n] = &c
 			}
@@ -442,6 +481,17 @@ func TestC11Standin(t *testing.T) {
 				}
 				if ti.Referenced != model.referenced(ti.Name) {
 					fail("referenced-flag", seq, fmt.Sprintf("%s: Referenced=%v, model %v (%s)", ti.Name, ti.Referenced, model.referenced(ti.Name), c11Summary(after)))
+					bad = true
+				}
+				var wantConv []string
+				for cn := range mt.Conv {
+					wantConv = append(wantConv, cn)
+				}
+				sort.Strings(wantConv)
+				gotConv := append([]string(nil), ti.Converters...)
+				sort.Strings(gotConv)
+				if strings.Join(gotConv, ",") != strings.Join(wantConv, ",") {
+					fail("converters", seq, fmt.Sprintf("%s: converters %v, model %v", ti.Name, gotConv, wantConv))
 					bad = true
 				}
 				if ti.Color != mt.Color {
